@@ -48,6 +48,54 @@ const (
 '''
 
 
+BAD_FILE = '''//go:build cff
+
+package b
+
+import (
+	"context"
+
+	"go.uber.org/cff"
+)
+
+// ill-formed: the second Params value is consumed by nothing
+func BadB(ctx context.Context) (string, error) {
+	var out string
+	err := cff.Flow(ctx,
+		cff.Params(1, "unused"),
+		cff.Results(&out),
+		cff.Task(func(n int) float64 { return float64(n) }),
+		cff.Task(func(f float64) string { return "x" }),
+	)
+	return out, err
+}
+'''  # BAD_FLOW
+
+
+def model_files(files, withdir, bad):
+    """the layout as FileSelModel sees it: directory ids, base names, which files fail, which contain a directive"""
+    dirs = sorted({os.path.dirname(f) for f in files})
+    L = []
+    for f in sorted(files):
+        if f.endswith(".go"):
+            L.append("F %d %s %d %d" % (dirs.index(os.path.dirname(f)), os.path.basename(f), 1 if f in bad else 0, 1 if (f in withdir or f in bad) else 0))
+    return dirs, L
+
+
+def model_outcome(dirs, L, sel, only_dir=None):
+    lines = [l for l in L if only_dir is None or int(l.split()[1]) == dirs.index(only_dir)]
+    out = common.model_run("filesel", ["S " + " ".join(sel) + " | " + " ; ".join(lines)])[0]
+    ex, _, ws = out.partition(" | W ")
+    written = set()
+    for w in [x.strip() for x in ws.split(";") if x.strip()]:
+        if w.startswith("="):
+            written.add(w[1:])
+        else:
+            d, _, n = w.partition("/")
+            written.add(os.path.join(dirs[int(d)], n))
+    return ex.split()[1], written
+
+
 def cff_file(pkg, names, k, tag="//go:build cff", test=False):
     imports = ['"context"', '"strconv"', "", '"go.uber.org/cff"']
     if test:
@@ -66,13 +114,15 @@ def layout():
     files = {
         "a/foo.go": cff_file("a", ["FooA1", "FooA2"], "A"),
         "a/foo_test.go": cff_file("a", ["FooAT"], "AT", test=True),
+        "a/subfoo.go": cff_file("a", ["SubFooA"], "AS"),        # its name ends in the name of another file
         "a/plain.go": "package a\n\n// no directive, no tag\nfunc Plain() int { return 1 }\n",
         "a/tagged_no_directive.go": "//go:build cff\n\npackage a\n\nfunc TaggedOnly() int { return 2 }\n",
         "b/foo.go": cff_file("b", ["FooB1"], "B"),
         "b/bar.go": cff_file("b", ["BarB1"], "BB", tag="//go:build cff && !windows"),
         "c/deep/foo.go": cff_file("deep", ["FooC1"], "C"),
     }
-    with_directives = ["a/foo.go", "a/foo_test.go", "b/foo.go", "b/bar.go", "c/deep/foo.go"]
+    files["b/bad.go"] = BAD_FILE
+    with_directives = ["a/foo.go", "a/foo_test.go", "a/subfoo.go", "b/foo.go", "b/bar.go", "c/deep/foo.go"]
     return files, with_directives
 
 
@@ -117,8 +167,22 @@ def apply(chk):
     rc, out = common.run_cff(mod, "./...")
     chk.count(1, key=("files", "./..."))
     after = snapshot(mod)
-    if rc != 0:
-        chk.fail_no_input("correspondence files-written could not run: cff failed on the layout module: %s" % out.strip()[-300:], {"correspondence": "files written", "output": out[-2000:]})
+    bad = {"b/bad.go"}
+    dirs, mfiles = model_files(files, set(withdir), bad)
+    mexit, mwritten = model_outcome(dirs, mfiles, [])
+    if "panic:" in out or "goroutine 1 [" in out:
+        chk.violate("cff crashed on the layout module", {"output": out[-3000:], "module": mod})
+        return
+    if (rc != 0) != (mexit != "0"):
+        chk.violate("cff ./... exited with status %d on a layout in which %s is rejected and every other file is accepted (FileSelModel: exit %s)" % (rc, sorted(bad), mexit),
+                    {"exit_status": rc, "model_exit": mexit, "cff_output": out[-1500:], "module": mod})
+        return
+    if not any("bad.go" in l for l in out.split("\n")):
+        chk.violate("cff rejected b/bad.go without a diagnostic naming the file", {"cff_output": out[-1500:], "module": mod})
+        return
+    if mwritten != expected:
+        chk.fail_no_input("FileSelModel and the documented outputs disagree on the layout: %s vs %s" % (sorted(mwritten), sorted(expected)),
+                          {"theorem": "correspondence FileSelModel.run_tool ~ cmd/cff/main.go run (model side)", "model": sorted(mwritten), "expected": sorted(expected)})
         return
     created = {f for f in after if f not in before}
     modified = {f for f in before if after.get(f) != before[f]}
@@ -161,7 +225,30 @@ def apply(chk):
                         chk.violate("%s: the statements around the directive in %s are not preserved in %s" % (f, fn_name, g), {"source": f, "generated": g, "module": mod})
                         return
     # -file selections: only the selected file is processed; explicit output paths are honoured
-    for sel, outp in (("foo.go", None), ("foo.go", os.path.join(mod, "out", "x_gen.go"))):
+    # selections judged by FileSelModel: a rejected file, a name no file has, a repeated input
+    for pkgdir, sels in (("b", ["bad.go"]), ("b", ["bad.go", "foo.go"]), ("a", ["nosuch.go"]), ("a", ["foo.go", "foo.go=" + os.path.join(mod, "out", "y_gen.go")]),
+                         ("a", ["oo.go"]), ("a", ["foo.go", "subfoo.go"])):
+        for f in snapshot(mod):
+            if f not in before:
+                os.remove(os.path.join(mod, f))
+        b2 = snapshot(mod)
+        extra = []
+        for x in sels:
+            extra += ["-file", x]
+        rc, out = common.run_cff(mod, "./" + pkgdir, extra=extra)
+        chk.count(1, key=("filesel", pkgdir, tuple(sels)))
+        a2 = snapshot(mod)
+        created = {f for f in a2 if f not in b2}
+        modified = {f for f in b2 if a2.get(f) != b2[f]}
+        mexit, mwritten = model_outcome(dirs, mfiles, sels, only_dir=pkgdir)
+        mwritten = {os.path.relpath(w, mod) if os.path.isabs(w) else w for w in mwritten}
+        if (rc != 0) != (mexit != "0") or created != mwritten or modified:
+            chk.violate("cff %s ./%s exited %d, wrote %s and modified %s; by the selection rules (FileSelModel) it exits %s and writes exactly %s" % (
+                " ".join(extra), pkgdir, rc, sorted(created), sorted(modified), "non-zero" if mexit != "0" else "0", sorted(mwritten)),
+                {"selection": sels, "package": pkgdir, "exit_status": rc, "created": sorted(created), "modified": sorted(modified),
+                 "model_exit": mexit, "model_written": sorted(mwritten), "cff_output": out[-1000:], "module": mod})
+            return
+    for sel, outp in (("foo.go", None), ("foo.go", os.path.join(mod, "out", "x_gen.go")), ("subfoo.go", None)):
         for f in snapshot(mod):
             if f not in before:
                 os.remove(os.path.join(mod, f))
@@ -174,7 +261,7 @@ def apply(chk):
         a2 = snapshot(mod)
         created = {f for f in a2 if f not in b2}
         modified = {f for f in b2 if a2.get(f) != b2[f]}
-        want = {os.path.relpath(outp, mod)} if outp else {"a/foo_gen.go"}
+        want = {os.path.relpath(outp, mod)} if outp else {"a/" + sel[:-3] + "_gen.go"}
         if rc != 0 or created != want or modified:
             chk.violate("cff -file=%s ./a wrote %s and modified %s (exit %d); expected exactly %s" % (arg, sorted(created), sorted(modified), rc, sorted(want)),
                         {"created": sorted(created), "modified": sorted(modified), "expected": sorted(want), "cff_output": out[-1000:], "module": mod})
@@ -190,5 +277,5 @@ def apply(chk):
         chk.violate("the layout module does not build/test without the cff tag after generation: %s" % ([l for l in (o + e).split("\n") if ".go:" in l] or [(o + e)[-200:]])[0],
                     {"output": (o + e)[-2000:], "module": mod})
     chk.cov["correspondence"]["files_written_and_preserved"] = {
-        "kind": "real cff on a multi-package layout (equal base names in different directories, a test file, files without directives or without the tag, a compound constraint): set of files written vs extracted gen_filename, directory snapshots, token-identical preservation of every declaration without directive, imports only added, -file=IN and -file=IN=OUT selections, go test of the result",
+        "kind": "real cff on a multi-package layout (equal base names in different directories, a test file, files without directives or without the tag, a compound constraint): set of files written vs extracted gen_filename, directory snapshots, token-identical preservation of every declaration without directive, imports only added, -file=IN and -file=IN=OUT selections, a rejected file among accepted ones (exit status, no output for it), selections of a rejected file / a name no file has / a suffix of a name / a repeated input judged by the extracted FileSelModel.run_tool, go test of the result",
         "files_with_directives": len(withdir), "files_total": len(files)}
